@@ -275,11 +275,17 @@ fn skesk_case(t: &mut Tape, rec: &mut Rec) -> CaseResult {
     }
     // reference -> rPGP: SKESK by the reference, container by the reference
     // rPGP's documented policy: no simple S2K and no MD5/SHA-1/RIPEMD-160 based S2K for message passwords
+    // (bounded: an exhausted tape keeps drawing the same refused specifier)
+    let mut tries = 0;
     let rs2k = loop {
         let (r, _) = s2k_pair(t, v6, 30);
         let weak = matches!(r, S2k::Simple { .. }) || matches!(r, S2k::Salted { hash, .. } | S2k::Iterated { hash, .. } if matches!(hash, 1 | 2 | 3));
         if !weak {
             break r;
+        }
+        tries += 1;
+        if tries > 32 {
+            break S2k::Iterated { hash: 8, salt: [7; 8], coded: 0 };
         }
     };
     let inner = wire::new_packet(11, &wire::literal_body(b'b', b"", 0, &payload));
@@ -341,7 +347,13 @@ fn seckey_case(t: &mut Tape, rec: &mut Rec) -> CaseResult {
     let mut rng = ChaCha8Rng::from_seed(t.seed32());
     let aead_mode = t.chance(if v6 { 170 } else { 90 });
     let sym = if aead_mode { *t.pick(&AES) } else { *t.pick(&CIPHERS) };
+    let mut tries = 0;
     let (rs2k, ps2k) = loop {
+        tries += 1;
+        if tries > 32 {
+            // (bounded: an exhausted tape keeps drawing the same refused specifier)
+            break (S2k::Iterated { hash: 8, salt: [7; 8], coded: 0 }, StringToKey::IteratedAndSalted { hash_alg: hash_alg(8), salt: [7; 8], count: 0 });
+        }
         let (r, p) = s2k_pair(t, aead_mode, 30);
         // combinations rPGP documents as refused: simple/salted with AEAD, weak hashes, v6 + simple
         let weak = matches!(r, S2k::Simple { hash, .. } | S2k::Salted { hash, .. } | S2k::Iterated { hash, .. } if matches!(hash, 1 | 2 | 3));
